@@ -138,9 +138,14 @@ def axiom_audit(pid, names):
 
 # --------------------------------------------------------------------------- correspondence
 
+PROP = [""]   # the property being decided: some monitors of the driver belong to one property only
+
+
 def drive(cases_path, verd_path):
+    env = dict(os.environ)
+    env["VERIF_PROP"] = PROP[0]
     with open(cases_path) as fi, open(verd_path, "w") as fo:
-        p = subprocess.run([DRIVER], stdin=fi, stdout=fo, stderr=subprocess.PIPE, text=True)
+        p = subprocess.run([DRIVER], stdin=fi, stdout=fo, stderr=subprocess.PIPE, text=True, env=env)
     return p.returncode, p.stderr
 
 
@@ -245,14 +250,22 @@ def load_findings():
     return json.load(open(p))
 
 
-def match_finding(pid, line, findings):
+def match_finding(pid, line, findings, verdict=""):
+    """an *open* finding matches a bad line by its protocol line and, when given, by the reason
+    the driver attached to its verdict (`why=…`): both patterns must hold"""
     for f in findings:
         if f.get("status") != "open" or pid not in f.get("properties", [f.get("property")]):
             continue
         m = f.get("match", {})
         rx = m.get("line_regex")
-        if rx and re.search(rx, line):
-            return f
+        vx = m.get("verdict_regex")
+        if not rx and not vx:
+            continue
+        if rx and not re.search(rx, line):
+            continue
+        if vx and not re.search(vx, verdict or ""):
+            continue
+        return f
     return None
 
 
@@ -269,6 +282,7 @@ def write_replay(pid, seed, idx, payload):
 
 def check(pid, tier, seed):
     t0 = time.time()
+    PROP[0] = pid
     cfg = props.PROPS[pid]
     wd = os.path.join(WORK, pid)
     shutil.rmtree(wd, ignore_errors=True)
@@ -403,7 +417,7 @@ def check(pid, tier, seed):
     unlisted_p0 = []
     unlisted_d1 = []
     for (ename, l, v) in bad:
-        f = match_finding(pid, l, findings)
+        f = match_finding(pid, l, findings, v)
         if f is not None:
             known_hit.setdefault(f["id"], (f, l))
             continue
@@ -415,7 +429,7 @@ def check(pid, tier, seed):
             sl, sv = shrink(l, klass(v), wd)
         except Exception as e:  # noqa
             sl, sv = l, v
-        f = match_finding(pid, sl, findings)
+        f = match_finding(pid, sl, findings, sv)
         if f is not None:
             known_hit.setdefault(f["id"], (f, sl))
             continue
@@ -473,7 +487,7 @@ def search(pid, cfg, ename, line, wd, seed, findings):
         lines = [l.rstrip("\n") for l in open(cases)]
         verd = judge_lines(lines, wd, "search")
         for l, v in zip(lines, verd):
-            if klass(v) in ("D0", "X0", "V0") and match_finding(pid, l, findings) is None:
+            if klass(v) in ("D0", "X0", "V0") and match_finding(pid, l, findings, v) is None:
                 try:
                     sl, _ = shrink(l, klass(v), wd)
                 except Exception:  # noqa
@@ -506,6 +520,7 @@ def write_evidence(pid, tier, seed, cfg, t0, c, nviol):
 
 
 def replay(pid, path):
+    PROP[0] = pid
     wd = os.path.join(WORK, pid + ".replay")
     os.makedirs(wd, exist_ok=True)
     rc, out = build_lean(["driver"])
